@@ -140,6 +140,21 @@ def body_season(case):
                                     site="Sun.get_equinox_solstice", kind="year_spacing",
                                     year=y, target=SEASONS[k], gap=dy)
         prev = js
+        if y == y0:
+            # the receiver re-uses what it was given (set() is the documented mutator); asking
+            # again must give the same instants
+            for t in ts:
+                t.set(2451545.0)
+            js2 = [t.jde() for t in _season_instants(y)]
+            for k in range(4):
+                if abs(js2[k] - js[k]) > 1e-9:
+                    raise Violation("get_equinox_solstice(%d, %r) = JDE %.6f, and JDE %.6f when "
+                                    "asked again after the first result had been re-used by its "
+                                    "receiver" % (y, SEASONS[k], js[k], js2[k]),
+                                    site="Sun.get_equinox_solstice", kind="not_a_function_of_the_year",
+                                    year=y, target=SEASONS[k])
+            ts = _season_instants(y)
+            lab("asked_again_after_result_recycled", 4)
         if extra:
             break
         for k in range(4):
@@ -177,6 +192,10 @@ def body_season(case):
                      "season_gaps_d": [min(gaps), max(gaps)] if gaps else None}}
 
 
+def _short(y):
+    return str(y) if abs(y) < 10 ** 12 else "%s(%d digits)" % ("-" if y < 0 else "", len(str(abs(y))))
+
+
 def body_season_range(case):
     y, tg = case["year"], case["target"]
     try:
@@ -184,10 +203,14 @@ def body_season_range(case):
     except ValueError:
         lab = "out_of_range:" + ("below" if y < -1000 else "above")
         near = "out_of_range:adjacent" if y in (-1001, 3001) else lab
-        return {"labels": [lab, near] if near != lab else [lab], "nontrivial": True}
-    raise Violation("get_equinox_solstice(%d, %r) returned %r instead of raising ValueError"
-                    % (y, tg, t), site="Sun.get_equinox_solstice", kind="accepted_year",
-                    year=y)
+        labs = [lab, near] if near != lab else [lab]
+        if abs(y) >= 2 ** 63:
+            labs.append("out_of_range:beyond_64_bits")
+        if abs(y) > 10 ** 308:
+            labs.append("out_of_range:beyond_float_range")
+        return {"labels": labs, "nontrivial": True}
+    raise Violation("get_equinox_solstice(%s, %r) returned %r instead of raising ValueError"
+                    % (_short(y), tg, t), site="Sun.get_equinox_solstice", kind="accepted_year")
 
 
 # ------------------------------------------------------------------------ equation of time
@@ -275,6 +298,84 @@ def body_eot(case):
     lab("eot_sweeps")
     return {"n": n, "nt": nt, "labels": labels,
             "show": {"max_abs_s": maxabs, "max_step_s": maxstep}}
+
+
+# ------------------------------------------------------------------------ seconds-field carry
+
+def _eot_near(j, target):
+    m, s = Sun.equation_of_time(Epoch(j))
+    return min(_eot_candidates(m, s), key=lambda c: abs(c - target)), m, s
+
+
+def body_eot_carry(case):
+    """The (minutes, seconds) pair is a sexagesimal rendering of one continuous quantity: around
+    the instant where it passes a whole minute (seconds field 59.99.. <-> 0.0, minutes field
+    changing) the value rendered at consecutive doubles must stay within 1 ms of that minute."""
+    j = case["jde"]
+    ulps = case.get("ulps", 60)
+    # leave the stretch where the minutes field is 0 (sign not expressible)
+    for _ in range(12):
+        m, s = Sun.equation_of_time(Epoch(j))
+        if m != 0:
+            break
+        j += 5.0
+    else:
+        return {"labels": ["eot_carry_skipped:no_crossing_in_window"]}
+    e0 = _eot_candidates(m, s)[0]
+    # march on until the value passes a whole minute
+    a, ea = j, e0
+    b = eb = None
+    for i in range(1, 160):
+        t = j + 0.5 * i
+        if t > J_EOT_HI:
+            return {"labels": ["eot_carry_skipped:no_crossing_in_window"]}
+        et, _, _ = _eot_near(t, ea)
+        if math.floor(et / 60.0) != math.floor(ea / 60.0):
+            b, eb = t, et
+            break
+        a, ea = t, et
+    if b is None:
+        return {"labels": ["eot_carry_skipped:no_crossing_in_window"]}
+    K = 60.0 * max(math.floor(ea / 60.0), math.floor(eb / 60.0))
+    if K == 0.0 or abs(eb - ea) > 45.0:
+        return {"labels": ["eot_carry_skipped:zero_crossing"]}   # no sign to render there
+    lo, hi = (a, b)
+    flo = ea - K
+    for _ in range(80):
+        mid = 0.5 * (lo + hi)
+        if mid == lo or mid == hi:
+            break
+        fm = _eot_near(mid, K)[0] - K
+        if abs(fm) > 45.0:
+            raise Violation("equation_of_time(JDE %r) renders %.4f s between JDE %r (%.4f s) and JDE %r "
+                            "(%.4f s), around the whole minute %d" % (mid, fm + K, lo, flo + K, hi,
+                                                                      _eot_near(hi, K)[0], K / 60),
+                            site="Sun.equation_of_time", kind="carry", jde=mid, minute=K / 60)
+        if (fm < 0) == (flo < 0):
+            lo, flo = mid, fm
+        else:
+            hi = mid
+    worst = 0.0
+    n = 0
+    for start, up in ((lo, False), (hi, True)):
+        t = start
+        for _ in range(ulps):
+            v, m, s = _eot_near(t, K)
+            n += 1
+            worst = max(worst, abs(v - K))
+            if abs(v - K) > 1e-3:
+                raise Violation("equation_of_time(JDE %r) = (%d, %r) = %.6f s, %d doubles from the instant "
+                                "(JDE %r) where it passes %d min: %.3f s away from that value"
+                                % (t, m, s, v, _, lo, K / 60, v - K), site="Sun.equation_of_time",
+                                kind="carry", jde=t, minute=K / 60, m=m, s=s)
+            t = math.nextafter(t, math.inf if up else -math.inf)
+    labels = {"eot_whole_minute_crossing": 1, "eot_crossing_negative" if K < 0 else "eot_crossing_positive": 1,
+              "eot_doubles_around_crossing": n}
+    return {"n": n, "nt": n, "labels": labels,
+            "show": {"minute": K / 60, "crossing_jde": lo, "worst_s": worst}}
+
+
+J_EOT_HI = 2451545.0 + (3998.8 - 2000.0) * 365.25 + 400.0
 
 
 # ------------------------------------------------------------------------ rise_set
@@ -502,6 +603,7 @@ def _kf_rise_set_drift(clause, case, v):
 KNOWN_SIGNATURES = {"KF-C14-rise-set-drift": _kf_rise_set_drift}
 
 CLAUSES = {"season": body_season, "season_range": body_season_range, "eot": body_eot,
+           "eot_carry": body_eot_carry,
            "rise_set": body_rise_set, "trts": body_trts}
 
 
@@ -512,7 +614,11 @@ def season_range_cases():
         st.integers(-1010, -1001), st.integers(3001, 3010),
         st.sampled_from([-1001, 3001, -1002, 3002, -4712, 6000, -10 ** 6, 10 ** 6, -2000, 4000,
                          -1500, 3500, 10 ** 9]),
-        st.integers(-100000, -1001), st.integers(3001, 100000))
+        st.integers(-100000, -1001), st.integers(3001, 100000),
+        # int is arbitrary precision: beyond 64 bits, beyond the float range
+        st.tuples(st.sampled_from([1, -1]), st.integers(5, 1300)).map(lambda t: t[0] * 10 ** t[1]),
+        st.tuples(st.sampled_from([1, -1]), st.sampled_from([31, 53, 63, 64, 127, 1023, 1024, 1025,
+                                                             4096])).map(lambda t: t[0] * 2 ** t[1]))
     return st.builds(lambda y, t: {"year": y, "target": t}, years, st.sampled_from(SEASONS))
 
 
@@ -523,6 +629,12 @@ def eot_cases():
                     st.sampled_from([1799.3, 1799.9, 2199.9, 2200.3, 1582.2, -2000.0, 3998.8,
                                      -0.5, 999.7]))
     return st.builds(build, yrs, st.integers(366, 400))
+
+
+def eot_carry_cases():
+    yrs = st.one_of(S.years(-2000.0, 3998.0), st.floats(-2000.0, 3998.0))
+    return st.builds(lambda y, n: {"jde": round(S.jde_from_year(y), 3), "ulps": n}, yrs,
+                     st.sampled_from([60, 60, 200]))
 
 
 def rise_set_cases():
@@ -588,7 +700,7 @@ def trts_cases():
     return st.builds(build, lon, lat, a2, d2, speed, bearing, acc, acc, h0, dT, th0, hunt)
 
 
-STRATS = {"season_range": season_range_cases, "eot": eot_cases, "rise_set": rise_set_cases,
+STRATS = {"season_range": season_range_cases, "eot": eot_cases, "eot_carry": eot_carry_cases, "rise_set": rise_set_cases,
           "trts": trts_cases}
 
 
@@ -616,7 +728,7 @@ def tasks(tier, seed):
     for i in range(nsh):
         out.append(Task("t_seasons", blocks=blocks[i::nsh]))
     mult = 1 if tier == "quick" else 12
-    plan = {"eot": (16, 12), "rise_set": (16, 900), "trts": (16, 1500), "season_range": (1, 300)}
+    plan = {"eot": (16, 12), "eot_carry": (16, 10), "rise_set": (16, 900), "trts": (16, 1500), "season_range": (1, 300)}
     for clause, (shards, n) in plan.items():
         nshards = shards if tier == "quick" else shards * 2
         for sh in range(nshards):
